@@ -60,7 +60,8 @@ def inject(rng, t, toks):
     if kind == "comment":
         bounds = [0] + [e for _, _, e in toks]
         p = rng.choice(bounds)
-        c = rng.choice([b"/* c */", b"/**/", b"// x\n", b"/* a * b */", b"//\n"])
+        c = rng.choice([b"/* c */", b"/**/", b"// x\n", b"/* a * b */", b"//\n", b"// step 1\rstep 2\n", b"//\r x\n", b"// x\r\n",
+                        b"/* a\r\n * / \"q\" [ */", b"// [1, {\"a\": tru\n", b"/*/ */", b"/***/", b"// \t\x0b\x0c x\n"])
         # after the last token a comment is "trailing bytes": a different rule applies with allow-trailing
         return ("comment_end" if p == bounds[-1] else kind), t[:p] + c + t[p:], True
     if kind in ("squote", "squote_key"):
